@@ -82,6 +82,9 @@ class HistoryRunner:
 		self.run_no = 0
 		self.kinds_seq: list[str] = []
 		self.changed_since_obs = False
+		# mtime (ns) history per module and the mtime whose tree the cache can still hold (the one of the latest run that touched the tree cache)
+		self.stamps: dict[str, list[int]] = {}
+		self.cached_stamp: dict[str, int] = {}
 
 	# -- bookkeeping helpers
 
@@ -95,6 +98,11 @@ class HistoryRunner:
 	def account_trace(self, rec: dict[str, Any], fault: dict[str, Any] | None) -> None:
 		"""Update written/tainted from the I/O trace of a finished process."""
 		trace = rec.get('trace', [])
+		for ev in trace:
+			if ev[0] in ('open-w', 'open-r') and is_cache(ev[1]):
+				mk = module_of_cache_file(ev[1])
+				if mk and mk[1] == 'tree' and mk[0] in self.proj.state:
+					self.cached_stamp[mk[0]] = os.stat(self.proj.sc.path(pools.module_relpath(mk[0]))).st_mtime_ns
 		snapshot_state = dict(self.proj.state)
 		for ev in trace:
 			if ev[0] == 'open-w' and is_cache(ev[1]):
@@ -179,7 +187,23 @@ class HistoryRunner:
 		if kind == 'edit':
 			m = op['m']
 			before = self.proj.state[m]
-			t = self.proj.set_variant(m, op['v'], op.get('dt', 10**9))
+			reuse = None
+			if op.get('reuse') is not None:
+				# restore-with-preserved-timestamp: an OLDER mtime of this file comes back with another content. Premise kept: never the mtime
+				# of the state the cache may still hold (a later run at another mtime has superseded every other one).
+				rel = pools.module_relpath(m)
+				cur = os.stat(self.proj.sc.path(rel)).st_mtime_ns
+				cands = sorted(t for t in set(self.stamps.get(m, [])) if t != cur and t != self.cached_stamp.get(m))
+				if cands:
+					reuse = cands[op['reuse'] % len(cands)]
+			if reuse is not None:
+				variant = op['v'] % len(self.pool['variants'][m])
+				self.proj.state[m] = variant
+				t = self.proj.sc.edit_at(pools.module_relpath(m), self.pool['variants'][m][variant]['src'].encode('utf-8'), reuse)
+				self.bump('faults_fired', 'clock: older mtime restored with other content')
+			else:
+				t = self.proj.set_variant(m, op['v'], op.get('dt', 10**9))
+			self.stamps.setdefault(m, []).append(t)
 			if self.proj.state[m] != before:
 				self.changed_since_obs = True
 			if op.get('dt', 1) < 0:
